@@ -54,7 +54,31 @@ def lemma_vcs() -> list:
     def U(m):
         return z3.Implies(unit_upto(m), z3.And(Sa(m) >= 0, Sa(m) <= m, (Sa(m) == m) == ones_upto(m)))
 
+    # float sum of values in {0.0, 1.0} in the relaxed model: fl is any function that is exact on integers <= 2^53
+    R_ = z3.RealSort()
+    fl = z3.Function("lem_fl", R_, R_)
+    v = z3.Function("lem_v", I, R_)
+    FS = z3.Function("lem_FS", I, R_)
+    C = z3.Function("lem_C", I, I)
+    x = z3.Real("lem_x")
+    fax = [z3.ForAll([x], z3.Implies(z3.And(z3.IsInt(x), x <= 2 ** 53, x >= -(2 ** 53)), fl(x) == x)),
+           FS(0) == 0, C(0) == 0,
+           z3.ForAll([j], z3.Implies(j >= 0, FS(j + 1) == fl(FS(j) + v(j))), patterns=[FS(j + 1)]),
+           z3.ForAll([j], z3.Implies(j >= 0, C(j + 1) == C(j) + z3.If(v(j) == 1, 1, 0)), patterns=[C(j + 1)])]
+
+    def zero_one_upto(m):
+        return z3.ForAll([j], z3.Implies(z3.And(j >= 0, j < m), z3.Or(v(j) == 0, v(j) == 1)))
+
+    def all_one_upto(m):
+        return z3.ForAll([j], z3.Implies(z3.And(j >= 0, j < m), v(j) == 1))
+
+    def F(m):
+        return z3.Implies(z3.And(zero_one_upto(m), m <= 2 ** 53),
+                          z3.And(FS(m) == z3.ToReal(C(m)), C(m) >= 0, C(m) <= m, (C(m) == m) == all_one_upto(m)))
+
     out = []
+    out.append(VC("lemma:float_sum_of_zero_one_is_exact_count#base", to_smt2(fax, F(z3.IntVal(0))), kind="lemma", target="pyvc/lemmas.py"))
+    out.append(VC("lemma:float_sum_of_zero_one_is_exact_count#step", to_smt2(fax + [n >= 0, F(n)], F(n + 1)), kind="lemma", target="pyvc/lemmas.py"))
     for name, prop in (("sum_le_and_eq_iff_pointwise", P), ("sum_ge_count", Q), ("sum_nonneg", R), ("sum_of_zero_one", U)):
         out.append(VC(f"lemma:{name}#base", to_smt2(ax, prop(z3.IntVal(0))), kind="lemma", target="pyvc/lemmas.py"))
         out.append(VC(f"lemma:{name}#step", to_smt2(ax + [n >= 0, prop(n)], prop(n + 1)), kind="lemma", target="pyvc/lemmas.py"))
@@ -95,3 +119,16 @@ def sum01(cx, A: dict) -> None:
     unit = z3.ForAll([j], z3.Implies(rng, z3.And(A["fn"](j) >= 0, A["fn"](j) <= 1)))
     ones = z3.ForAll([j], z3.Implies(rng, A["fn"](j) == 1))
     cx.assume(z3.Implies(z3.And(n >= 0, unit), z3.And(A["S"](n) >= 0, A["S"](n) <= n, (A["S"](n) == n) == ones)))
+
+
+def float_sum01(cx, A: dict):
+    """instance of float_sum_of_zero_one_is_exact_count for a recorded float sum (relaxed model); returns the count function"""
+    n = A["n"]
+    j = z3.Int(cx._name("lj"))
+    C = cx.func("CountOnes", I, I)
+    rng = z3.And(j >= 0, j < n)
+    zero_one = z3.ForAll([j], z3.Implies(rng, z3.Or(A["fn"](j) == 0, A["fn"](j) == 1)))
+    all_one = z3.ForAll([j], z3.Implies(rng, A["fn"](j) == 1))
+    cx.assume(z3.Implies(z3.And(n >= 0, n <= 2 ** 53, zero_one),
+                         z3.And(A["S"](n) == z3.ToReal(C(n)), C(n) >= 0, C(n) <= n, (C(n) == n) == all_one)))
+    return C
